@@ -13,6 +13,9 @@ reconnectable=True), reconnectable or not. Two engines:
     opened / closed by the schedule, accepted connections are closed (FIN) or reset (RST).
     Between rounds the harness waits (bounded select, never a verdict) until the kernel has
     resolved the pending connect or delivered the FIN/RST.
+  * "sse": a reconnectable Patron reading a server-sent-event stream (retry field in the stream) from a raw
+    loopback listener that cuts the stream two or three times; after each cut the patron must be live again
+    within 6 service rounds after cut time + max(timeout, retry).
 Every schedule ends with a tail: the server is up for good and 22 more rounds follow one
 eighth of the timeout apart.
 
@@ -63,7 +66,7 @@ RULE = ("Hypothesis-generated schedules (<= 24 steps of [dt in eighths of the ti
         "non-trivial = the client became live after >= 1 failed/abandoned attempt, or a cutoff was flagged after a "
         "successful connection; distinct = distinct schedule+parameters" % (TAIL, K))
 ASSUMPTIONS = [
-    "reconnect timeout > 0 (timeout 0 disables the timer in the code) and no server-sent-event responses (they change the timer duration)",
+    "reconnect timeout > 0 (timeout 0 disables the timer in the code); server-sent-event responses change the timer duration to the stream's retry time and are exercised by the separate sse scenarios (bound: max(timeout, retry) after the cut)",
     "when a connect to a listening server takes 3 connect_ex calls (double latency 2) the liveness bound is demanded only "
     "while the K rounds lie within one timeout (a connect slower than the reconnect timeout is legitimately abandoned); "
     "with latency <= 1 (always on loopback) it is demanded at any service rate, including service period >= timeout",
@@ -605,7 +608,136 @@ def run_loop(case):
     return mon.fails, bool(nontrivial), classes
 
 
+SSE_K = 6      # service rounds allowed after the (event stream) reconnect time has passed
+
+
+def run_sse(case):
+    """A reconnectable Patron reading a server-sent-event stream over real loopback sockets. The stream is cut
+    `cuts` times (FIN or RST) while the listener stays up. After each cut at time t the patron must be live again
+    (connector connected, not cut off, a new connection accepted by the listener) within SSE_K service rounds after
+    t + max(timeout, retry): its reconnect timer was restarted no later than t with a duration of either the
+    configured timeout or the stream's retry time (milliseconds), so it has expired by then.
+    case: {"mode": "sse", "timeout": T, "retry": ms, "dt8": eighths of max(T, retry/1000) per round, "cuts": [flavours], "gap": rounds}
+    -> (failures, nontrivial, classes)"""
+    env.quiet_ioflo()
+    from ioflo.base import storing
+    from ioflo.aio.http import clienting as hclienting
+    T = float(case["timeout"])
+    R = case["retry"] / 1000.0
+    period = max(T, R)
+    dt = period * case["dt8"] / 8.0
+    classes = {"engine:sse", "timeout:%s" % T, "retry-ms:%s" % case["retry"], "cuts:%d" % len(case["cuts"])}
+    fails = []
+    ha = _loop_addr()
+    srv = LoopServer(ha)
+    store = storing.Store(stamp=0.0)
+    patron = None
+    head = (b"HTTP/1.1 200 OK\r\nContent-Type: text/event-stream\r\nCache-Control: no-cache\r\n\r\n"
+            + b"retry: %d\n\n" % case["retry"])
+    n_event = [0]
+
+    def reply():
+        n_event[0] += 1
+        return head + b"id: %d\ndata: tick %d\n\n" % (n_event[0], n_event[0])
+
+    try:
+        srv.up()
+        patron = hclienting.Patron(store=store, hostname=ha[0], port=ha[1], timeout=T, reconnectable=True)
+        patron.open()
+        patron.request(method="GET", path="/stream", headers={"Accept": "text/event-stream"})
+        t = 0.0
+        served = set()
+
+        def service_round():
+            patron.serviceAll()
+            srv.accept_pending()
+            for cs in list(srv.conns):
+                try:
+                    data = cs.recv(65536)
+                except (BlockingIOError, InterruptedError):
+                    data = b""
+                except OSError:
+                    data = b""
+                if data and id(cs) not in served:
+                    served.add(id(cs))
+                    try:
+                        cs.send(reply())
+                    except OSError:
+                        pass
+
+        def live():
+            c = patron.connector
+            return bool(c.connected and not c.cutoff and srv.conns)
+
+        # establish the stream
+        for _ in range(40):
+            store.changeStamp(t)
+            service_round()
+            if live() and patron.respondent.evented and patron.events:
+                break
+            if patron.connector.cs is not None and not patron.connector.connected:
+                select.select([], [patron.connector.cs], [], 0.2)
+            else:
+                select.select([s for s in srv.conns] + ([patron.connector.cs] if patron.connector.cs else []), [], [], 0.05)
+            t += dt
+        else:
+            raise Inconclusive("event stream not established")
+        for k, flavour in enumerate(case["cuts"]):
+            for _ in range(case["gap"]):
+                t += dt
+                store.changeStamp(t)
+                service_round()
+            old = patron.connector.cs
+            srv.cut(flavour)
+            t_cut = t
+            if old is not None:
+                _wait([old], [], "FIN/RST of cut %d not delivered" % k)
+            deadline_rounds = None
+            ok = False
+            for r in range(200):
+                t += dt
+                store.changeStamp(t)
+                try:
+                    service_round()
+                except Exception as ex:   # noqa: BLE001
+                    fails.append(("sse-raises:%s@%s" % (type(ex).__name__, _site(ex)), "service round after cut %d raised %r" % (k, ex)))
+                    return fails, True, classes
+                cs = patron.connector.cs
+                if cs is not None and not patron.connector.connected:
+                    select.select([], [cs], [], 0.2)       # let the kernel finish the pending connect (never a verdict)
+                if live() and patron.connector.cs is not old:
+                    ok = True
+                    classes.add("sse-reconnected-after-cut-%d" % (k + 1))
+                    break
+                if t >= t_cut + period:
+                    deadline_rounds = (deadline_rounds or 0) + 1
+                    if deadline_rounds > SSE_K:
+                        break
+            if not ok:
+                tm = patron.connector.timer
+                fails.append(("no-reconnect@patron-event-stream:cut%d" % min(k + 1, 2),
+                              "reconnectable Patron on an event stream (timeout %s s, retry %s ms): %d service rounds after "
+                              "cut %d + max(timeout, retry) it is still not live although the server is listening "
+                              "(connected=%r cutoff=%r, timer duration %r remaining %r)"
+                              % (T, case["retry"], SSE_K, k + 1, patron.connector.connected, patron.connector.cutoff,
+                                 getattr(tm, "duration", None), getattr(tm, "remaining", None))))
+                return fails, True, classes
+        return fails, len(case["cuts"]) >= 2, classes
+    except Inconclusive as ex:
+        classes.add("inconclusive")
+        return fails, False, classes
+    finally:
+        try:
+            if patron is not None:
+                patron.close()
+        except Exception:   # noqa: BLE001
+            pass
+        srv.close()
+
+
 def run_case(case):
+    if case.get("mode") == "sse":
+        return run_sse(case)
     if case.get("mode") == "loop":
         return run_loop(case)
     return run_double(case)
@@ -646,6 +778,17 @@ def loop_cases():
     })
 
 
+def sse_cases():
+    return st.fixed_dictionaries({
+        "mode": st.just("sse"),
+        "timeout": st.sampled_from([0.5, 1.0, 2.0]),
+        "retry": st.sampled_from([100, 250, 500, 1000, 3000]),
+        "dt8": st.sampled_from([1, 2, 4, 8]),
+        "cuts": st.lists(st.sampled_from(["fin", "fin", "rst"]), min_size=2, max_size=3),
+        "gap": st.integers(0, 3),
+    })
+
+
 def _preload():
     """plan() runs in the parent before the worker pool forks: import ioflo there once, so that the
     workers do not each compile it again (no .pyc is written under -B)."""
@@ -660,9 +803,9 @@ def plan(tier):
     _preload()
     if tier == "quick":
         return [{"part": "double", "i": i, "n": 100} for i in range(6)] + \
-               [{"part": "loop", "i": 100 + i, "n": 20} for i in range(2)]
+               [{"part": "loop", "i": 100 + i, "n": 20} for i in range(2)] + [{"part": "sse", "i": 200, "n": 12}]
     return [{"part": "double", "i": i, "n": 900} for i in range(13)] + \
-           [{"part": "loop", "i": 100 + i, "n": 80} for i in range(3)]
+           [{"part": "loop", "i": 100 + i, "n": 80} for i in range(3)] + [{"part": "sse", "i": 200 + i, "n": 60} for i in range(2)]
 
 
 def work(shard, seed, tier):
@@ -671,9 +814,9 @@ def work(shard, seed, tier):
     def execute(case):
         fails, nontrivial, classes = run_case(case)
         return Outcome(fails, nontrivial=nontrivial, classes=sorted(classes), key=case,
-                       sample={k: case[k] for k in case if k != "steps"} | {"steps": case["steps"][:12]})
+                       sample={k: case[k] for k in case if k != "steps"} | {"steps": case.get("steps", [])[:12]})
 
-    strat = double_cases() if shard["part"] == "double" else loop_cases()
+    strat = double_cases() if shard["part"] == "double" else (sse_cases() if shard["part"] == "sse" else loop_cases())
     campaign(acc, strat, execute, shard["n"], seed * 1000 + shard["i"],
              budget=Budget(30 if tier == "quick" else 480), shrink_examples=300)
     return acc
